@@ -69,6 +69,11 @@ Theorem T_C03_close_skips_rest : forall (narrow : N -> option N) (widen : N -> N
 Proof. exact close_spec. Qed.
 Print Assumptions T_C03_close_skips_rest.
 
+(* the destructor's loop never runs out of fuel, whatever the state and the input (ill-formed included) *)
+Theorem T_C03_close_fuel_suffices : forall st rest, close_obj st rest <> SFuel.
+Proof. exact close_obj_fuel. Qed.
+Print Assumptions T_C03_close_fuel_suffices.
+
 (* FULL STATEMENT C03_close_never_terminates_statement:
      forall narrow widen o data h, bytes data -> run_obj_root narrow widen o data h <> FTerm
    (destroying an object scope never ends in std::terminate) is false: finding F17, witness document 81 *)
@@ -215,7 +220,9 @@ Print Assumptions T_C03_read_timestamp.
      specification's tokens and error and that the unwinding destructors do not terminate
      (T_C03_mp_refines_outside and T_C03_close_truncated_outside assume an error-free history);
    - fuel sufficiency of find_loop / visit_loop on ILL-FORMED input (proved here for every document
-     the reference decoder accepts: the outcomes above are Go / Done, never NoFuel), and that the
-     Stale outcome of ReadKey is unreachable on arbitrary input;
+     the reference decoder accepts: the outcomes above are Go / Done, never NoFuel; for the destructor
+     on every input: T_C03_close_fuel_suffices), and that the Stale outcome of ReadKey is unreachable
+     on arbitrary input (argument: fuel = |input from mStartPos| + 1, every member costs two bytes and
+     the loop wraps at most once);
    - the stream reader (CMsgPackStreamReader) under the same scopes: tied to this model by the
      correspondence runs (kinds s, S) only. *)
